@@ -20,6 +20,6 @@ PROP = dict(
         "cargo-kani flags from harness/np_srvnts_h/Cargo.toml: no-assertion-reach-checks, no-memory-safety-checks, no-overflow-checks, --max-field-sensitivity-array-size 127",
     ],
     harnesses=[
-        H(NP, "c19", "c19_cookies_p2", "cookie + 2 placeholders of symbolic length: #fresh cookies <= #fields at least as long as a fresh cookie (<= 3 <= 8); every cookie comes from its own encode_cookie call for the same session keys under the given key set; only the unique identifier is echoed", timeout=1800),
+        H(NP, "c19", "c19_cookies_p2", "cookie + 2 placeholders of symbolic length: #fresh cookies <= #fields at least as long as a fresh cookie (<= 3 <= 8); every cookie comes from its own encode_cookie call for the same session keys under the given key set; only the unique identifier is echoed", timeout=1800, native_check="native::native_short_placeholders_get_no_cookie"),
     ],
 )
